@@ -69,6 +69,8 @@ def plan(tier, seed):
         shards.append(("catalogue", (s, s)))
     for shp in rect:
         shards.append(("catalogue", shp))
+    for fam in range(3):
+        shards.append(("combs", fam))
     for c in range(8):
         shards.append(("sched", c, 8, tier))
     shards.append(("sparsescan", tier))
@@ -284,12 +286,50 @@ def catalogue(shp):
     return out
 
 
+def bridged_comb(teeth, order, hook, width=1):
+    """vertical teeth that start as separate blobs and are then joined pairwise by horizontal bridges in the given ORDER of adjacent pairs
+    (one bridge per pair of rows), optionally hooked at the end onto an older blob (a top bar running down one side): the order of the
+    unions decides how deep the chains in the label table get before a lookup happens"""
+    step = 2 + width
+    nf = 2 + step * teeth + 3
+    nrows = 3 + 2 * len(order) + 4
+    m = np.zeros((nrows, nf), bool)
+    xs = [2 + step * k for k in range(teeth)]
+    for x in xs:
+        m[2:nrows - 1, x:x + width] = True
+    for n_, k in enumerate(order):                       # bridge tooth k to tooth k+1 at row 4 + 2 n_
+        m[4 + 2 * n_, xs[k]:xs[k + 1] + width] = True
+    if hook != "none":
+        m[0, :] = True                                   # the older blob: a bar along the top ...
+        side = nf - 1 if hook.endswith("right") else 0
+        m[:, side] = True                                # ... and down one side
+        tooth = {"last_right": teeth - 1, "first_left": 0, "first_right": teeth - 1, "last_left": 0}[hook]
+        r_ = 4 + 2 * len(order) if hook.startswith("last") else 3
+        if side:
+            m[r_, xs[tooth]:nf] = True
+        else:
+            m[r_, 0:xs[tooth] + width] = True
+    return m
+
+
+def bridged_combs(family):
+    teeth = 3 + family                                   # families 0..2 : 3, 4, 5 teeth
+    for order in itertools.permutations(range(teeth - 1)):
+        for hook in ("none", "last_right", "last_left", "first_right", "first_left"):
+            for width in (1, 2):
+                yield "comb:teeth=%d:order=%s:hook=%s:width=%d" % (teeth, "".join(map(str, order)), hook, width), bridged_comb(teeth, order, hook, width)
+
+
 def _run_catalogue(desc):
-    _, shp = desc
+    if desc[0] == "combs":
+        items = list(bridged_combs(desc[1]))
+    else:
+        items = list(catalogue(desc[1]).items())
     from ImageD11 import cImageD11 as cI, sparseframe as sf
     sh = Shard()
-    small = shp[0] * shp[1] <= 129 * 129
-    for name, mask in catalogue(shp).items():
+    for name, mask in items:
+        shp = mask.shape
+        small = shp[0] * shp[1] <= 129 * 129
         for conn8 in (True, False):
             for vt in (1, 2):
                 lo, hi, thr = VT[vt]
@@ -540,6 +580,9 @@ def replay(case):
         _sparse_case(sh, cI, sf, np.array(case["tern"]), shp)
     else:
         shp = tuple(case["shape"])
-        r = _run_catalogue(("catalogue", shp))
+        if str(case.get("gen", "")).startswith("comb:teeth="):
+            r = _run_catalogue(("combs", int(case["gen"].split("teeth=")[1][0]) - 3))
+        else:
+            r = _run_catalogue(("catalogue", shp))
         sh.violations = [v for v in r.violations if v["case"].get("gen") == case.get("gen")]
     return (not sh.violations), {"violations": sh.violations}
